@@ -206,6 +206,41 @@ def run_shard(spec, tier, seed):
         Nr = rot_invariants("rotate_nautical", sname + "|nautical", lambda v: v.rotate_nautical(nphi, nth, nps))
         J.vec("rotate_nautical(yaw,pitch,roll)=rotate_euler(roll,pitch,yaw,'zyx')", sname + "|nautical", Nr,
               A.rotate_euler(nps, nth, nphi, "zyx"), unit, d4)
+        # ---------------- the documented keyword spelling of every rotation equals the positional one (the names are
+        # written here, not read from the live signatures)
+        n_rv, _ = gen.vec3(r, core=True)
+        try:
+            KN = mode.vec(mk(n_rv, S3[di % len(S3)]))
+        except R.NotRepresentable:
+            KN = None
+        hq = [mpmath.cos(ang / 2), mpmath.sin(ang / 2) * mpf("0.6"), mpf(0), mpmath.sin(ang / 2) * mpf("0.8")]
+        nq = [mode.num(v) for v in hq]
+        kwforms = [
+            ("rotateX(angle=)", lambda: A.rotateX(angle=na), lambda: A.rotateX(na)),
+            ("rotateY(angle=)", lambda: A.rotateY(angle=na), lambda: A.rotateY(na)),
+            ("rotateZ(angle=)", lambda: A.rotateZ(angle=na), lambda: A.rotateZ(na)),
+            ("rotate_euler(phi=,theta=,psi=,order=)", lambda: A.rotate_euler(phi=nphi, theta=nth, psi=nps, order="yzx"),
+             lambda: A.rotate_euler(nphi, nth, nps, "yzx")),
+            ("rotate_euler(psi=,phi=,theta=) [any order of keywords]", lambda: A.rotate_euler(psi=nps, phi=nphi, theta=nth),
+             lambda: A.rotate_euler(nphi, nth, nps, "zxz")),
+            ("rotate_nautical(yaw=,pitch=,roll=)", lambda: A.rotate_nautical(yaw=nphi, pitch=nth, roll=nps), lambda: A.rotate_euler(nps, nth, nphi, "zyx")),
+            ("rotate_nautical(roll=,yaw=,pitch=) [any order of keywords]", lambda: A.rotate_nautical(roll=nps, yaw=nphi, pitch=nth),
+             lambda: A.rotate_nautical(nphi, nth, nps)),
+            ("rotate_nautical(yaw, roll=, pitch=) [mixed]", lambda: A.rotate_nautical(nphi, roll=nps, pitch=nth), lambda: A.rotate_nautical(nphi, nth, nps)),
+            ("rotate_quaternion(u=,i=,j=,k=)", lambda: A.rotate_quaternion(u=nq[0], i=nq[1], j=nq[2], k=nq[3]), lambda: A.rotate_quaternion(*nq)),
+            ("rotate_quaternion(k=,j=,i=,u=) [any order of keywords]", lambda: A.rotate_quaternion(k=nq[3], j=nq[2], i=nq[1], u=nq[0]),
+             lambda: A.rotate_quaternion(*nq)),
+        ]
+        if KN is not None:
+            kwforms.append(("rotate_axis(axis=,angle=)", lambda: A.rotate_axis(axis=KN, angle=na), lambda: A.rotate_axis(KN, na)))
+            kwforms.append(("rotate_axis(angle=,axis=) [any order of keywords]", lambda: A.rotate_axis(angle=na, axis=KN), lambda: A.rotate_axis(KN, na)))
+        for kname, fk, fp in kwforms:
+            try:
+                got_k = fk()
+            except TypeError as e:
+                J.exact("documented keyword spelling accepted: " + kname, sname + "|keywords", False, {"exc": str(e)[:160]})
+                continue
+            J.vec("keyword spelling = positional spelling: " + kname, sname + "|keywords", got_k, fp(), unit, d4)
         if di == 0:
             res.sample({"vector": ls[0].describe(), "angles": [mpmath.nstr(v, 20) for v in (ang, ang2, phi, theta, psi)],
                         "mode": mode.name, "laws_checked_so_far": res.evaluations})
